@@ -37,6 +37,11 @@ Sources of the rules (docs.ponyorm.org api_reference `db_session`, transactions.
       unless it commits explicitly; a body that yields again gets Python's RuntimeError('generator ignored
       GeneratorExit'); exceptions escape from close() but are swallowed when the generator is merely dropped.
   R12 a later db_session in the same thread commits exactly its own changes, never leftovers of an earlier session.
+  R13 a nested db_session that Pony REFUSES to start -- `with db_session(serializable=True)` inside a session whose
+      outermost db_session is not serializable, `ddl=True` (context manager or decorated function) inside a non-ddl
+      session -- raises TransactionError to the enclosing body before its own body runs (test_db_session_ddl_1c,
+      test_db_session_ddl_2) and is otherwise ignored like any nested session (R5): the enclosing session still
+      commits / rolls back at ITS exit, and later sessions of the thread are unaffected (R12).
   R9  flushing an INSERT whose primary key already exists in the table raises TransactionIntegrityError (a
       TransactionError) at the next flush()/commit()/session exit (test_retry_10).
 """
@@ -58,7 +63,7 @@ PARENTS = {
 BODY_CLASSES = ['A', 'B', 'C', 'D', 'E', 'K', 'TE', 'TIE']           # what a body may raise
 BOTTLE_CLASSES = ['HR', 'HE', 'HR2', 'HE2']
 LIST_CLASSES = ['A', 'B', 'C', 'D', 'E', 'K', 'TE', 'TIE', 'Exception']   # what exception lists may name
-CATCH_CLASSES = ['A', 'B', 'C', 'D', 'E']                     # what the body itself may catch around a nested session
+CATCH_CLASSES = ['A', 'B', 'C', 'D', 'E', 'TE']                     # what the body itself may catch around a nested session
 YIELD_CATCH_CLASSES = CATCH_CLASSES + ['GeneratorExit', 'BaseException']   # ... and around a yield
 
 
@@ -219,15 +224,24 @@ def run_block(m, block, depth, yield_outcomes, in_generator):
             spec, inner, catch = step[1], step[2], step[3]
             if spec['form'] == 'context' and spec['opts'].get('retry'):
                 raise Inconclusive('nested context manager with retry')
-            if spec['form'] == 'context' and spec['opts'].get('serializable') and not m.outer_serializable:
-                raise Inconclusive('serializable context manager inside a non-serializable session')
+            if spec['opts'].get('ddl') and spec['opts'].get('retry'):
+                raise Inconclusive('ddl together with retry (TypeError at construction)')
+            refused = bool(spec['opts'].get('ddl')) or bool(
+                spec['form'] == 'context' and spec['opts'].get('serializable') and not m.outer_serializable)
             try:
+                if refused:
+                    m.refused += 1
+                    raise MExc('TE', 'pony')                      # R13: the nested body never runs
                 for k in run_block(m, inner, depth + 1, yield_outcomes, in_generator):
                     raise Inconclusive('yield inside a nested session')
             except MExc as e:
-                if e.cls in ('TIE',) or not matches(catch, e.cls):
+                if not matches(catch, e.cls):
                     raise
+                if e.cls == 'TIE' and e.origin == 'pony':
+                    raise Inconclusive('the body swallows a failed flush and goes on with a broken cache')
                 m.caught += 1
+                if refused:
+                    m.refused_caught += 1
             m.probe('after_nest')          # R5: the nested exit committed nothing
         else:
             raise Inconclusive('unknown step %r' % (op,))
@@ -246,6 +260,8 @@ def predict(case, yield_outcomes=()):
     m.ambiguous_te = False
     m.closing = None
     m.close_caught = False
+    m.refused = 0
+    m.refused_caught = 0
     m.outer_serializable = bool(opts.get('serializable')) and form in ('decorator', 'context')
     exp = {'reject': None, 'executions': 0, 'exc': None, 'finals': None, 'outcome': None,
            'retried': 0, 'decisive': False}
@@ -256,6 +272,8 @@ def predict(case, yield_outcomes=()):
         exp['finals'] = finals if finals is not None else [rows_of(m.committed)]
         exp['exc_alternatives'] = alternatives
         exp['closing'] = m.closing
+        exp['refused'] = m.refused
+        exp['refused_caught'] = m.refused_caught
         exp['close_caught'] = m.close_caught
         # R12: the following session's own writes, applied to each acceptable state
         after = case.get('after') or []
